@@ -335,9 +335,19 @@ impl Clock {
 		} = &mut self.state
 		{
 			*tick_timer += self.speed.value().as_ticks_per_second() * dt;
-			while *tick_timer >= 1.0 {
-				*tick_timer -= 1.0;
-				*ticks += 1;
+			// split the timer into whole ticks and a fraction in constant time:
+			// counting the ticks one by one takes as long as the timer is large
+			// and never finishes when the timer is infinite or so large that
+			// `x - 1.0 == x`
+			if *tick_timer >= 1.0 {
+				let whole_ticks = tick_timer.floor();
+				// both the cast and the addition saturate at `u64::MAX`
+				*ticks = ticks.saturating_add(whole_ticks as u64);
+				*tick_timer = if whole_ticks.is_finite() {
+					*tick_timer - whole_ticks
+				} else {
+					0.0
+				};
 				new_tick_count = Some(*ticks);
 			}
 		} else {
